@@ -178,7 +178,7 @@ class Program:
 
     # ------------------------------------------------------------------ indexing (impl headers -> call keys)
     def _srcspan(self, path, l0, c0, l1, c1):
-        full = os.path.join(REPO, path)
+        full = os.path.join(REPO, path)   # spans are relative to the workspace root
         if full not in self._src:
             self._src[full] = open(full).read().split('\n')
         L = self._src[full]
